@@ -274,6 +274,14 @@ def check_history(ctx: Ctx, hist: dict, model_out: str | None, enc) -> None:
         fields = dict(x.split("=", 1) for x in part.split())
         mrech = sorted(inv[int(x)] for x in fields.get("rechecked", "").split(",") if x)
         rrech = B.user_modules(st["warm"].get("rechecked"))
+        # an import cycle is fresh or stale as a whole (find_stale_sccs); the model's units carry SCC-wide
+        # sources, which says the same except when a member's record dates from an earlier run than its peers'
+        # (a module that left the build for a while and came back): close the model's answer under this run's SCCs
+        stale_m = set(mrech)
+        for scc in st["warm"].get("sccs") or []:
+            if stale_m & set(scc):
+                stale_m |= set(B.user_modules(scc))
+        mrech = sorted(stale_m)
         miss = int(fields.get("miss", "0"))
         if miss:
             ctx.count("oracle_misses", miss)
